@@ -1376,6 +1376,46 @@ pub fn handle(op: &str, a: &[&str]) -> Option<Resp> {
     match (op, a) {
         ("rel.hist", [t, allow, ops]) => Some(run_hist(&ds(t)?, *allow == "1", ops)),
         ("rel.wrap", [t, allow]) => Some(run_wrap(&ds(t)?, *allow == "1")),
+        // a field that holds an API-built EMPTY entry (`Entry::new()` inserted at entry index k): the
+        // empty entry is gone, the result is the normal form of the field without it (after seeded
+        // change C13-r8m1; the parser never makes an empty ENTRY node)
+        ("rel.wrape", [t, allow, k]) => {
+            let text = ds(t)?;
+            let allow = *allow == "1";
+            let k = k.parse::<usize>().ok()?;
+            let (mut root, errs) = Relations::parse_relaxed(&text, allow);
+            if !errs.is_empty() {
+                return Some(Resp::ok("NOT-WELL-FORMED".to_string()));
+            }
+            if sort_may_panic(&root) == Some(true) || read_field(&root).is_none() {
+                return Some(Resp::ok("OUTSIDE".to_string()));
+            }
+            let plain = guard(|| Relations::parse_relaxed(&text, allow).0.wrap_and_sort().to_string());
+            let res = guard(move || {
+                root.insert(k, Entry::new());
+                let w = root.wrap_and_sort();
+                let t1 = w.to_string();
+                let d1 = w.verif_dump();
+                let t2 = w.wrap_and_sort().to_string();
+                (t1, d1, t2)
+            });
+            match (res, plain) {
+                (Some((t1, d1, t2)), Some(p)) => {
+                    let mut fail = None;
+                    if strict_parse(&t1, allow).is_none() {
+                        fail = Some(format!("the normal form {:?} of a field with an empty entry does not parse strictly", t1));
+                    } else if empty_segments(&t1) > 0 {
+                        fail = Some(format!("the normal form {:?} has an empty comma-separated segment", t1));
+                    } else if t1 != p {
+                        fail = Some(format!("the empty entry is not simply gone: {:?}, without it {:?}", t1, p));
+                    } else if t2 != t1 {
+                        fail = Some(format!("normalising again changes the text: {:?} -> {:?}", t1, t2));
+                    }
+                    Some(Resp::with(format!("{} {} | {}", es(&t1), d1, es(&t2)), fail))
+                }
+                _ => Some(Resp::with("PANIC".into(), Some("wrap_and_sort panics on a field with an empty entry".into()))),
+            }
+        }
         ("rel.eqcmp", [a, b]) => Some(run_eqcmp(&ds(a)?, &ds(b)?)),
         _ => None,
     }
@@ -1608,6 +1648,11 @@ pub fn generate_c13(tier: &str, seed: u64, out: &mut Out) {
     let mut rng = Rng::new(seed ^ 0xC13);
     // exhaustive: 2 entries x 2 alternatives out of a pool, every order
     let rels = ["a", "b", "a (>= 1)", "a (<< 1)", "a:any", "a [amd64]", "a [!amd64]", "a <!x>", "a <x y>", "b (= 1:2-3)"];
+    for t in ["", "a", "b, a", "b | a, c (>= 1), a", " b ,\n a", "a, ${x:y}", "${x:y}", "a, , b,"] {
+        for k in 0..4 {
+            out.req("rel.wrape", &[es(t), "1".into(), k.to_string()]);
+        }
+    }
     for r1 in rels {
         out.req("rel.wrap", &[es(r1), "0".into()]);
         for r2 in rels {
